@@ -45,8 +45,11 @@ def random_params(rng, atoms, vary=True):
         p["pos_tol"] = float(rng.uniform(0.3, 1.0))
     if rng.random() < 0.4:
         p["max_cell_size"] = float(rng.uniform(4.0, 8.0))
-    if rng.random() < 0.4:
+    r = rng.random()
+    if r < 0.3:
         p["merge_threshold"] = float(rng.uniform(0.3, 0.9))
+    elif r < 0.5:
+        p["merge_threshold"] = float(rng.uniform(0.0, 0.25))      # merge-prone: small overlaps already merge regions
     r = rng.random()
     z = atoms.get_atomic_numbers()
     from ase.data.vdw_alvarez import vdw_radii
